@@ -55,6 +55,11 @@ pub const STATEMENTS: &[&str] = &[
     "trap 'echo T4' USR1; : $(kill -s USR1 $$) | cat; echo after",
     // command search: a directory (or a non-executable file) with the command's name in PATH is not the command
     "PATH=$W:$PATH; d1; echo $?", "PATH=$W/d1:$W:$PATH d2; echo $?", "PATH=$W:$PATH; f0; echo $?",
+    // signals whose default action is to be ignored, sent to the shell itself and to a child
+    "(kill -s URG $$; echo alive); echo $?", "kill -s WINCH $$; echo $?", "kill -s CHLD $$; echo $?", "kill -s CONT $$; echo $?",
+    "{ st 4; } & kill -s URG $!; wait $!; echo $?", "{ st 6; } & kill -s WINCH $!; wait $!; echo $?",
+    // the descriptor limit: descriptor N is invalid, N-1 is the last valid one
+    "ulimit -n 20; echo x 20> f8; echo $?; echo y 19> f9; echo $?", "ulimit -n 13; exec 12> f8; echo $?; exec 13> f9; echo $?",
 ];
 
 #[derive(Clone, Debug, PartialEq, Eq, Hash, Serialize, Deserialize)]
